@@ -284,3 +284,53 @@ func vh_C04_L5_zero_checksum_learned_from_init() { vh_C13_L3_learned_only_from_w
 // C04.L6: agreement is reached with the peer that completes the handshake: capabilities
 // learned from an earlier INIT do not survive a later one (= C17.L1b).
 func vh_C04_L6_agreement_follows_latest_init() { vh_C17_L1_framing_follows_latest_init() }
+
+// C04.L2b: a stale or forged COOKIE ECHO during the handshake does not cancel the
+// retransmissions. A client has sent INIT (T1-init running) and, after an INIT collision,
+// has issued a cookie of its own; then a COOKIE ECHO with another cookie arrives. It is
+// ignored: the state, the T1 timer and the pending retry budget are untouched, so a peer
+// that then stays silent still makes the connect call fail after the bounded retries.
+func vh_C04_L2_stale_cookie_echo_keeps_retries() {
+	a := vHandshakeEndpoint(vPick(2) == 1, false)
+	a.initClient()
+	_ = vWriterWake(a)
+	vassert(a.getState() == cookieWait && a.t1Init.isRunning(), "client sent INIT and started T1-init")
+	// the peer's own INIT (collision): answered with an INIT ACK carrying our cookie
+	init := &chunkInit{}
+	init.initiateTag, init.initialTSN = 1+nondetU32()%0xfffffffe, nondetU32()
+	init.numOutboundStreams, init.numInboundStreams = 10, 10
+	init.advertisedReceiverWindowCredit = 1 << 16
+	setSupportedExtensions(&init.chunkInitCommon, false)
+	raw, err := (&packet{sourcePort: 5000, destinationPort: 5000, chunks: []chunk{init}}).marshal(true)
+	vassert(err == nil, "INIT marshals")
+	vInbound(a, raw)
+	_ = vWriterWake(a)
+	vassert(a.myCookie != nil, "a cookie was issued")
+	stale := nondetBytes(len(a.myCookie.cookie))
+	vassume(!vBytesEq(stale, a.myCookie.cookie))
+	echo, eerr := (&packet{sourcePort: 5000, destinationPort: 5000, verificationTag: a.myVerificationTag, chunks: []chunk{&chunkCookieEcho{cookie: stale}}}).marshal(true)
+	vassert(eerr == nil, "COOKIE ECHO marshals")
+	vInbound(a, echo)
+	vassert(a.getState() == cookieWait, "a COOKIE ECHO with another cookie does not establish anything")
+	vassert(a.t1Init.isRunning(), "and does not cancel the INIT retransmissions")
+	vassert(len(a.handshakeCompletedCh) == 0, "the connect call is told nothing yet")
+	// the peer stays silent: the retries are bounded and end in an error
+	inits := 0
+	for i := 0; i < 12; i++ {
+		for _, out := range vWriterWake(a) {
+			if p := vDecode(out); p != nil {
+				for _, c := range p.chunks {
+					if _, ok := c.(*chunkInit); ok {
+						inits++
+					}
+				}
+			}
+		}
+		if !vFireRtx(a, a.t1Init) {
+			break
+		}
+	}
+	vassert(inits >= 1, "INIT is retransmitted after the stale COOKIE ECHO")
+	vassert(len(a.handshakeCompletedCh) == 1, "after the bounded retries the connect call is told the handshake failed")
+	vcover("end")
+}
